@@ -228,17 +228,35 @@ func runC08(c *Ctx) {
 						continue
 					}
 					k, isK := ConstInt(bo.Y)
+					op := bo.Op
+					if !isK {
+						// the constant on the left: K > x is x < K
+						if kl, isL := ConstInt(bo.X); isL {
+							k, isK = kl, true
+							switch op {
+							case token.LSS:
+								op = token.GTR
+							case token.LEQ:
+								op = token.GEQ
+							case token.GTR:
+								op = token.LSS
+							case token.GEQ:
+								op = token.LEQ
+							}
+						}
+					}
 					if !isK || (k != cutoff && k != cutoff-1 && k != cutoff+1) {
 						continue
 					}
-					switch bo.Op {
+					switch op {
 					case token.LSS, token.LEQ, token.GTR, token.GEQ:
 					default:
 						continue
 					}
 					found = true
-					good := k == cutoff && wantOps[bo.Op]
-					d := fmt.Sprintf("compares with %s %d", bo.Op, k)
+					// x < K and x >= K draw the same line (which branch does what is decided by R4/R5)
+					good := k == cutoff && (wantOps[op] || op == token.LSS || op == token.GEQ)
+					d := fmt.Sprintf("compares with %s %d", op, k)
 					uses = append(uses, use{FnName(f), d, good, p.InstrPos(in)})
 				}
 			}
